@@ -454,6 +454,9 @@ def to_ascii_scenarios(ctx, repo, ci, ta):
         m_ = _re.match(r'\s*%(-?\d*)(?:\.(\d+))?s', r.fmt)
         if m_ and m_.group(2) is not None and int(m_.group(2)) < 40:
             problems.append('name field %%%s.%ss cuts names longer than %s characters: formatting and parsing back does not preserve the name' % (m_.group(1), m_.group(2), m_.group(2)))
+        dtf = [f for f in I.findings if f.kind == 'dtype']
+        if dtf:
+            problems.append(dtf[0].msg + ' (line %s): the value written is not the value held' % dtf[0].line)
         if problems:
             ctx.violation('ALG-19', inst, where_, '; '.join(problems[:3]), 'to-ascii-layout'); verdict = 'violation'
         elif unknown:
@@ -606,6 +609,7 @@ def object_rules(ctx, repo, ci):
 
 SO = 'sedfitter/source/source.py'
 MUST_FIRE = [
+    ('fluxes and errors interleaved in a buffer with the element type of the fluxes (whole-number fluxes truncate the errors)', [(SO, '        for j in range(self.n_wav):\n            line += "{0:11.3e} {1:11.3e} ".format(self.flux[j], self.error[j])\n', '        values = np.empty(2 * self.n_wav, dtype=self.flux.dtype)\n        values[0::2] = self.flux\n        values[1::2] = self.error\n        line += "".join("{0:11.3e} ".format(v) for v in values)\n')]),
     ('length check through a helper that forgets length 0', [(SO, 'if self.n_wav is not None and len(value) != self.n_wav:\n                raise ValueError("flux', 'if self._mismatch(value):\n                raise ValueError("flux'),
                                                              (SO, '    @property\n    def n_data(self):', '    def _mismatch(self, value):\n        return bool(self.n_wav) and len(value) != self.n_wav\n\n    @property\n    def n_data(self):')]),
     ('strides swapped', [(SO, "        s.flux = flux_and_error[::2]\n        s.error = flux_and_error[1::2]", "        s.flux = flux_and_error[1::2]\n        s.error = flux_and_error[::2]")]),
@@ -624,6 +628,7 @@ MUST_FIRE = [
     ('n_wav prefers flux', [(SO, "        if self.valid is not None:\n            return len(self.valid)\n        elif self.flux is not None:\n            return len(self.flux)", "        if self.flux is not None:\n            return len(self.flux)\n        elif self.valid is not None:\n            return len(self.valid)")]),
 ]
 MUST_SILENT = [
+    ('fluxes and errors interleaved in a buffer of doubles', [(SO, '        for j in range(self.n_wav):\n            line += "{0:11.3e} {1:11.3e} ".format(self.flux[j], self.error[j])\n', '        values = np.empty(2 * self.n_wav, dtype=float)\n        values[0::2] = self.flux\n        values[1::2] = self.error\n        line += "".join("{0:11.3e} ".format(v) for v in values)\n')]),
     ('flux assigned before valid (the length test then falls on the flags: the same lines are refused)', [(SO, "        s.valid = np.array(cols[3:3 + n_wav], dtype=int)\n        flux_and_error = np.array(cols[3 + n_wav:], dtype=float)\n        s.flux = flux_and_error[::2]\n",
                                          "        flux_and_error = np.array(cols[3 + n_wav:], dtype=float)\n        s.flux = flux_and_error[::2]\n        s.valid = np.array(cols[3:3 + n_wav], dtype=int)\n")]),
     ('length check through a helper', [(SO, 'if self.n_wav is not None and len(value) != self.n_wav:\n                raise ValueError("flux', 'if self._mismatch(value):\n                raise ValueError("flux'),
